@@ -16,7 +16,8 @@ def rows(path):
     return out
 
 sec8 = []
-sec8.append("### 8.1 Independently seeded changes (three waves: -a and -b for every property, -c for the properties of the third wave)\n")
+waves = sorted({os.path.basename(os.path.dirname(d)).split("-")[1] for d in glob.glob(os.path.join(V, "seeded/C*-*/meta.json"))})
+sec8.append("### 8.1 Independently seeded changes (%d waves, -%s to -%s, one change per property and wave)\n" % (len(waves), waves[0], waves[-1]))
 sec8.append("Each was written by a fresh sub-agent that saw only the property text and its own scratch worktree, was re-confirmed in a new scratch worktree (existing suite passes with it; its demonstration fails with it and passes without it - `tools/seed_intake.sh`), and is kept under `seeded/<id>/` (patch.diff, demo/, SEEDED.md, meta.json). `tools/seed_matrix.sh` applies each to `/repo`, runs the quick check of its property and reverts.\n")
 sec8.append("| seed | change | needs, to manifest | quick check of its property | first signature | also caught by / strengthening it prompted |")
 sec8.append("|---|---|---|---|---|---|")
@@ -24,6 +25,8 @@ res = {r[0]: r for r in rows(os.path.join(V, "seeded/RESULTS.tsv"))}
 for d in sorted(glob.glob(os.path.join(V, "seeded/C*-*/meta.json"))):
     m = json.load(open(d))
     r = res.get(m["id"], [m["id"], m["property"], "not run", ""])
+    if os.path.exists(os.path.join(os.path.dirname(d), "SUPERSEDED")):
+        r = [m["id"], m["property"], "superseded (" + open(os.path.join(os.path.dirname(d), "SUPERSEDED")).read().strip().split("\n")[0][:160] + ")", ""]
     sec8.append("| %s | %s | %s | %s %s | `%s` | %s |" % (m["id"], m["change"], m["needs_to_manifest"], r[1], r[2], r[3].strip(), "; ".join(m["caught_by"])))
 sec8.append("")
 sec8.append("### 8.2 Hand-written mutants and reverted fixes\n")
